@@ -9,7 +9,15 @@ OpList == SetToSeq(RealOps)
 Pairs == {<<OpList[i], OpList[j]>> : i \in 1..Len(OpList), j \in 1..Len(OpList)} 
 UPairs == {p \in Pairs : \E i, j \in 1..Len(OpList) : i <= j /\ p = <<OpList[i], OpList[j]>>}
 Schedules == {[root |-> r, ops |-> p, goroutines |-> n, decoders |-> d] : r \in Roots, p \in UPairs, n \in {4}, d \in {2}}
-FrameVals == {c \in OneField(FALSE) : c.lab.g \in Roots} \cup Nested1 \cup Full(FALSE)
+\* lists holding nil and typed-nil members between real ones (an encoder that compacts "in place" writes the caller's array)
+TNil(g) == [k |-> "nil", as |-> g]
+NilLists == {<<"nil-mid", ListOf(<<I1, NilItem, I2>>)>>, <<"tnil-first", ListOf(<<TNil("Object"), Note1, I2>>)>>,
+             <<"nils-then-object", ListOf(<<NilItem, TNil("Activity"), Person1>>)>>}
+NilMembers == UNION {{Case("nil-member", g, t, sh[1], With(BaseV(g, 3), t, sh[2])) :
+                        sh \in NilLists, t \in {u \in {"to", "tag", "object", "items", "orderedItems"} : u \in Terms(Props(g))}} :
+                      g \in {"Object", "Activity", "OrderedCollection", "Collection"}}
+              \cup {Case("nil-member", "list", "top", sh[1], sh[2]) : sh \in NilLists}
+FrameVals == {c \in OneField(FALSE) : c.lab.g \in Roots} \cup Nested1 \cup Full(FALSE) \cup NilMembers
 ASSUME ndJsonSerialize("c12_sched.ndjson", SetToSeq(Schedules))
 ASSUME ndJsonSerialize("c12_vals.ndjson", SetToSeq(FrameVals))
 ASSUME ndJsonSerialize("c12_ops.ndjson", <<[ops |-> OpList]>>)
